@@ -1,0 +1,10 @@
+//go:build go1.20
+// +build go1.20
+
+package cache
+
+// deleteEntry removes the key only if it still holds the given entry,
+// a value stored concurrently under the same key is kept.
+func (c *syncMap) deleteEntry(key interface{}, e *TraitEntry) {
+	c.data.CompareAndDelete(key, e)
+}
